@@ -154,12 +154,21 @@ static vector<double> build_values()
     }
     // exponent sweep: deterministic "boundary-biased bit patterns"
     static const uint64_t MANT_Q[3] = {0, 0xFFFFFFFFFFFFFull, 0x243F6A8885A30ull};
-    static const uint64_t MANT_T[6] = {0, 1, 0x8000000000000ull, 0xFFFFFFFFFFFFFull, 0x5555555555555ull, 0x243F6A8885A30ull};
+    static const uint64_t MANT_T[10] = {0,
+                                        1,
+                                        0x8000000000000ull,
+                                        0xFFFFFFFFFFFFFull,
+                                        0x5555555555555ull,
+                                        0x7FFFFFFFFFFFFull,
+                                        0x999999999999Aull,
+                                        0x3333333333333ull,
+                                        0xC000000000001ull,
+                                        0x243F6A8885A30ull};
     int step = mc::thorough() ? 1 : 8;
     for (int e = 0; e <= 2046; e += step)
     {
         const uint64_t *M = mc::thorough() ? MANT_T : MANT_Q;
-        int nm = mc::thorough() ? 6 : 3;
+        int nm = mc::thorough() ? 10 : 3;
         for (int m = 0; m < nm; m++)
         {
             uint64_t b = ((uint64_t)e << 52) | M[m];
@@ -222,7 +231,7 @@ static string collapse(const string &t)
     return r.size() > 24 ? r.substr(0, 24) : r;
 }
 
-static void check_call(const Spec &d, double x, Verdict &vd)
+static void check_call(const Spec &d, double x, Verdict &vd, bool safety_only = false)
 {
     Args a;
     string f = render(d, a);
@@ -247,8 +256,8 @@ static void check_call(const Spec &d, double x, Verdict &vd)
         return;
     }
     vd.shape = string(1, cv) + ":" + collapse(got.text);
-    if (!std::isfinite(x))
-        return; // shape and accuracy are stated for finite arguments only
+    if (!std::isfinite(x) || safety_only)
+        return; // shape and accuracy are stated for finite arguments (and decided for precisions 0..17) only
     {
         Out ref = run_ref(f, a);
         if (ref.text == got.text)
@@ -521,8 +530,42 @@ static void flags_body()
     mc::outcome(vd.shape);
 }
 
+// ------------------------------------------------------------------ (3) precisions beyond the 17 of the accuracy claim
+// The statement's safety clauses (terminates, stays inside its buffers, returns what it emitted) hold
+// for any precision; shape and accuracy are decided for the quantifier's precisions 0..17 only.
+static void long_precisions_body()
+{
+    static const double D[] = {0.0,     1.0,     -0.1,     0.3,   1.0 / 3, 2.5,     123456.789, 1e-5,    1e-30,    1e-45,   1e-100,
+                               1e-300,  4.9e-324, DBL_MIN, 1e15,  1e22,    1e63,    1e64,       1e100,   -1e300,   DBL_MAX, 9.999999999999999e22,
+                               INFINITY, NAN};
+    static const int PR[] = {18, 20, 39, 40, 41, 63, 64, 65, 66, 100, 330, 400};
+    const int ND = sizeof D / sizeof D[0], NP = sizeof PR / sizeof PR[0];
+    int unit = mc::choose(ND * 6);
+    int pi = mc::choose(NP);
+    int star = mc::choose(2);
+    int fl = mc::choose(4); // none, #, -, 0 with a width wider than the number
+    Spec d;
+    d.conv = CONV[unit % 6];
+    d.pkind = star ? 3 : 2;
+    d.p = PR[pi];
+    d.flags = fl == 1 ? F_ALT : fl == 2 ? F_LEFT : fl == 3 ? F_ZERO : 0;
+    if (fl >= 2)
+    {
+        d.wkind = 1;
+        d.w = 780;
+    }
+    double x = D[unit / 6];
+    Args tmp;
+    mc::describe("format %s precision arg %d value %.17g (class %s)", vis(render(d, tmp)).c_str(), d.p, x, dclass(x));
+    Verdict vd;
+    check_call(d, x, vd, true);
+    mc::nontrivial(); // every precision here exceeds the 17 significant digits of a double
+    mc::outcome(vd.shape);
+}
+
 MC_INIT
 {
+    mc::add_check("long_precisions", long_precisions_body);
     mc::add_check("values_x_precisions", values_body);
     mc::add_check("flags_x_widths", flags_body);
 }
